@@ -287,6 +287,9 @@ func edgeAtom(info *types.Info, e *Edge) (condAtom, bool) {
 		if e.Branch < 0 {
 			op = token.NEQ
 		}
+		if isNilIdent(info, e.Cond) {
+			return condAtom{Kind: "nil", X: e.Tag, Op: op}, true
+		}
 		return condAtom{Kind: "cmp", X: e.Tag, Y: e.Cond, Op: op}, true
 	}
 	inner, neg := stripNot(e.Cond)
